@@ -105,3 +105,27 @@ Theorem C02_unbound_sentence_correct_partial :
   forall r, compile sp = Some r -> rule_violated sp I r = negb (reading sp I).
 Proof. exact unbound_aggregate_sentence_correct. Qed.
 Print Assumptions C02_unbound_sentence_correct_partial.
+
+(* END TO END with one outer variable: 'the <fn> shelf id of a host with room id L ..., whenever there is a room L' and the four other
+   forms of C02_aggregate_term_value_partial (the passive forms with or without the whenever clause), compared with a number or a pair
+   of numbers, required or prohibited: the emitted constraint is violated by exactly the interpretations the READING excludes
+   (for each binding of L in its domain, as the reading quantifies). *)
+Theorem C02_bound_sentence_correct_partial :
+  forall sp I f l form side,
+  adm sp I -> nohash l ->
+  In (form, side) [(FParamShelf, KRoom); (FParamRoom, KShelf); (FActive, KShelf); (FPassiveShelf, KRoom); (FPassiveWeightEach, KRoom)] ->
+  a_agg sp = {| g_fn := f; g_form := form; g_side := Some side; g_label := Some l; g_dlabel := None; g_filter := None |} ->
+  a_owhere sp = None -> (match a_cmp sp with CPhrase _ _ | CBetween _ _ => True | _ => False end) ->
+  ((passive form = false /\ a_whenever sp = [(l, side)]) \/ (passive form = true /\ (a_whenever sp = [(l, KRoom)] \/ a_whenever sp = []))) ->
+  forall r, compile sp = Some r -> rule_violated sp I r = negb (reading sp I).
+Proof. exact bound_aggregate_sentence_correct. Qed.
+Print Assumptions C02_bound_sentence_correct_partial.
+
+(* the hypotheses are satisfiable, and the conclusion is not trivially true: a specification, its rule, and an interpretation it excludes *)
+Example C02_bound_example :
+  let sp := {| a_rooms := 2; a_shelves := [(1, 3); (2, 3)]%Z; a_required := false;
+               a_agg := {| g_fn := ACount; g_form := FParamShelf; g_side := Some KRoom; g_label := Some "R"; g_dlabel := None; g_filter := None |};
+               a_cmp := CPhrase "more than" 1; a_whenever := [("R", KRoom)]; a_owhere := None |} in
+  exists r, compile sp = Some r /\ print_rule r = ":- #count{V0: host(V1,V0)} > 1, room(V1)." /\
+            rule_violated sp [(1, 1); (1, 2)]%Z r = true /\ reading sp [(1, 1); (1, 2)]%Z = false /\ reading sp [(1, 1); (2, 2)]%Z = true.
+Proof. cbn zeta. eexists. split; [vm_compute; reflexivity|]. repeat split; vm_compute; reflexivity. Qed.
